@@ -232,10 +232,13 @@ def build(repo=None):
             return self.generic_visit(n)
     test = Ren().visit(first[1].test)
     ast.fix_missing_locations(test)
-    tr = translate.Tr({"subst": {"a.dtype.hasobject": ("hasobject", "bool"), "a.nbytes": ("nbytes", "Z")}})
+    # the eligibility predicate is regenerated whatever attribute of the dtype it consults: hasobject (object fields at
+    # any depth) and kind (the character code; ord("O") = 79) are both parameters of the model
+    tr = translate.Tr({"subst": {"a.dtype.hasobject": ("hasobject", "bool"), "a.nbytes": ("nbytes", "Z"),
+                                 "a.dtype.kind": ("dtype_kind", "Z"), "'O'": ("(79)", "Z"), "'V'": ("(86)", "Z")}})
     c, t, r = tr.truth(tr.expr(test, {"max_nbytes": ("max_nbytes", "optZ")}), test)
-    out.append(_definition("forward_memmaps", [("hasobject", "bool"), ("max_nbytes", "option Z"), ("nbytes", "Z")], "bool",
-                           c if r else "Ok (%s)" % c))
+    out.append(_definition("forward_memmaps", [("hasobject", "bool"), ("dtype_kind", "Z"), ("max_nbytes", "option Z"),
+                                               ("nbytes", "Z")], "bool", c if r else "Ok (%s)" % c))
     rets = [ast.unparse(n.value.elts[0]) for n in ast.walk(first[1]) if isinstance(n, ast.Return) and isinstance(n.value, ast.Tuple)]
     if rets != ["load_temporary_memmap", "loads"]:
         raise TranslateError("ArrayMemmapForwardReducer.__call__: unexpected returns %r" % rets)
